@@ -321,6 +321,10 @@ func (p *Point) UnmarshalJSON(data []byte) error {
 
 // UnmarshalBSON will unmarshal GeoJSON Point geometry.
 func (p *Point) UnmarshalBSON(data []byte) error {
+	if err := validateBSON(data); err != nil {
+		return err
+	}
+
 	g := &Geometry{}
 	err := bson.Unmarshal(data, &g)
 	if err != nil {
@@ -378,6 +382,10 @@ func (mp *MultiPoint) UnmarshalJSON(data []byte) error {
 
 // UnmarshalBSON will unmarshal the GeoJSON MultiPoint geometry.
 func (mp *MultiPoint) UnmarshalBSON(data []byte) error {
+	if err := validateBSON(data); err != nil {
+		return err
+	}
+
 	g := &Geometry{}
 	err := bson.Unmarshal(data, &g)
 	if err != nil {
@@ -435,6 +443,10 @@ func (ls *LineString) UnmarshalJSON(data []byte) error {
 
 // UnmarshalBSON will unmarshal the GeoJSON MultiPoint geometry.
 func (ls *LineString) UnmarshalBSON(data []byte) error {
+	if err := validateBSON(data); err != nil {
+		return err
+	}
+
 	g := &Geometry{}
 	err := bson.Unmarshal(data, &g)
 	if err != nil {
@@ -492,6 +504,10 @@ func (mls *MultiLineString) UnmarshalJSON(data []byte) error {
 
 // UnmarshalBSON will unmarshal the GeoJSON MultiPoint geometry.
 func (mls *MultiLineString) UnmarshalBSON(data []byte) error {
+	if err := validateBSON(data); err != nil {
+		return err
+	}
+
 	g := &Geometry{}
 	err := bson.Unmarshal(data, &g)
 	if err != nil {
@@ -549,6 +565,10 @@ func (p *Polygon) UnmarshalJSON(data []byte) error {
 
 // UnmarshalBSON will unmarshal the GeoJSON Polygon geometry.
 func (p *Polygon) UnmarshalBSON(data []byte) error {
+	if err := validateBSON(data); err != nil {
+		return err
+	}
+
 	g := &Geometry{}
 	err := bson.Unmarshal(data, &g)
 	if err != nil {
@@ -606,6 +626,10 @@ func (mp *MultiPolygon) UnmarshalJSON(data []byte) error {
 
 // UnmarshalBSON will unmarshal the GeoJSON MultiPolygon geometry.
 func (mp *MultiPolygon) UnmarshalBSON(data []byte) error {
+	if err := validateBSON(data); err != nil {
+		return err
+	}
+
 	g := &Geometry{}
 	err := bson.Unmarshal(data, &g)
 	if err != nil {
